@@ -31,6 +31,8 @@ def cases(tier, seed):
 
 def run_case(scn):
     t = record.run_solver(scn, listener=False)
+    if t.fp_exhausted:
+        return {"violations": [], "obs": {"fp_domain_exhausted": 1}, "skip": "fp-domain-exhausted"}
     viol = []
     if t.swallowed or t.aborted:
         viol.append({"mech": "solve-internal-exception", "stdout": t.stdout[-300:]})
